@@ -627,7 +627,7 @@ func CrashMode(profile string, baseSeed int64, n int, tier, driver, keep string)
 				}
 				if j == 0 && k == 0 {
 					// no write of the commit is on disk: this is a plain restart between InitChain and the first block
-					res.viol("C09", fmt.Sprintf("genesis-boundary: seed %d: a node restarted between InitChain and the first block (h=%d) does not continue like the unrestarted one: %s", seed, r.H, clip(diffs[0], 240)), fmt.Sprintf("%s/crash-%s-%d.txt", keep, profile, seed))
+					res.viol("C09", fmt.Sprintf("genesis-boundary: seed %d: a node restarted before the first block after InitChain (h=%d) does not continue like the unrestarted one: %s", seed, r.H, clip(diffs[0], 240)), fmt.Sprintf("%s/crash-%s-%d.txt", keep, profile, seed))
 				}
 				entry := fmt.Sprintf("seed=%d profile=%s h=%d"+where+" k=%d/%d last-write=%s unwritten=%s info=%s\n    %s", seed, profile, r.H, k, total, last, strings.Join(lost, ","), info, strings.Join(diffs[:minInt(5, len(diffs))], "\n    "))
 				if j == 0 {
@@ -644,7 +644,7 @@ func CrashMode(profile string, baseSeed int64, n int, tier, driver, keep string)
 			ioutil.WriteFile(dst, []byte(fmt.Sprintf("C10: crash points of Commit that do not recover (harness crash -profile %s -seed %d; history seed %d)\n\n%s\n", profile, baseSeed, seed, strings.Join(all, "\n"))), 0o644)
 			if len(genesisReport) > 0 {
 				first := strings.SplitN(genesisReport[0], "\n", 3)
-				res.viol("C10", fmt.Sprintf("genesis-boundary: %d crash points of the first Commit after InitChain do not recover; first: %s :: %s", len(genesisReport), first[0], clip(strings.TrimSpace(first[1]), 240)), dst)
+				res.viol("C10", fmt.Sprintf("genesis-boundary: %d crash points of the Commit of the first block after InitChain do not recover; first: %s :: %s", len(genesisReport), first[0], clip(strings.TrimSpace(first[1]), 240)), dst)
 			}
 			if len(report) > 0 {
 				first := strings.SplitN(report[0], "\n", 3)
